@@ -55,7 +55,13 @@ def oracle(ctx, o, first_only=False):
         n = getattr(h, "wrapped", h).truncate_size
         ck = vc.ctx_kwds(h)
         cheap = {"rounds": 4} if "bcrypt" in name else {}
-        for ch in CHARS:
+        idents = [None]
+        if "bcrypt" in name:
+            # every ident the hasher can produce ($2x$ is recognised only); the legacy $2$ variant repeats the password, which must not hide the limit
+            idents = [i.strip("$") for i in getattr(getattr(h, "wrapped", h), "ident_values", ()) if "2x" not in i] or [None]
+        for ch, ident in [(c_, i_) for c_ in CHARS for i_ in idents]:
+            if ident is not None:
+                cheap = {"rounds": 4, "ident": ident}
             if name in ("lmhash",) and ch != "a":
                 continue     # cp437 text: one byte per character
             for te in (False, True):
@@ -71,6 +77,8 @@ def oracle(ctx, o, first_only=False):
                         pw = build(ln, ch, rng)
                         for form in (pw, pw.encode()):
                             inp = {"op": "truncate", "hasher": name, "truncate_error": te, "via": mode, "bytes": ln, "char": ch, "as": type(form).__name__}
+                            if ident is not None:
+                                inp["ident"] = ident
                             if mode == "context":
                                 c = CryptContext([name], truncate_error=te, **{f"{name}__{k}": v for k, v in cheap.items()})
                                 do_hash = lambda f=form: c.hash(f, **ck)
@@ -174,6 +182,13 @@ def oracle(ctx, o, first_only=False):
             chk(name + ":nul-hash-refused", st == "err" and isinstance(r, ValueError), inp, errname(r) if st == "err" else r, "a value error, not a hash of the part before the NUL")
             st, r = vc.safe_call(lambda: hh.verify(base[:5] + b"\x00" + base[5:], good))
             chk(name + ":nul-verify-not-true", not (st == "ok" and r is True), inp, str(r)[:60], "the password is not cut at the NUL")
+            # refused, not merely unequal: verify and genhash, text and bytes, through a context too
+            for form in (pw, pw.decode()):
+                for what, call in (("verify", lambda: hh.verify(form, good)), ("genhash", lambda: hh.genhash(form, good)),
+                                   ("context-verify", lambda: CryptContext([name]).verify(form, good))):
+                    st, r = vc.safe_call(call)
+                    chk(name + ":nul-refused-by-" + what, st == "err" and isinstance(r, ValueError), dict(inp, call=what, **{"as": type(form).__name__}),
+                        errname(r) if st == "err" else str(r)[:60], "a value error")
     return fails
 
 
